@@ -78,9 +78,16 @@ def judge_minute(candle, events, orders_before, sim='step'):
     active = {k: dict(price=p, born=0.0, reaction=False) for k, p in orders_before.items()}
     now = 0.0
     vios, fills, flags = [], 0, set()
+    pending_market = {}
     for e in events:
         if e['ev'] == 'submit':
-            if e['type'] == 'MARKET' or e['price'] is None:
+            if e['price'] is None:
+                continue
+            if e['type'] == 'MARKET':
+                # an exit declared within 0.015% of the price becomes a MARKET order that keeps the DECLARED price; while it waits in
+                # the to-execute queue the matching loop fills it like a resting order when the path reaches that price
+                # (which moves the position on the path). It is flushed right after the minute otherwise: never 'left unfilled'.
+                pending_market[e['ord']] = e['price']
                 continue
             active[e['ord']] = dict(price=e['price'], born=now, reaction=True)
             ft = path.first_touch(e['price'], 0.0)
@@ -91,6 +98,12 @@ def judge_minute(candle, events, orders_before, sim='step'):
         elif e['ev'] == 'fill' and e['before'] == 'ACTIVE':  # the moment execute() is entered: hooks (and their orders) come after it
             me = active.pop(e['ord'], None)
             if me is None:
+                mp = pending_market.pop(e['ord'], None)
+                if mp is not None:
+                    tm = path.first_touch(mp, now)
+                    if tm is not None:
+                        now = tm
+                        flags.add('pending-market-order-filled-on-the-path')
                 continue  # market order
             fills += 1
             tf = path.first_touch(me['price'], now)
